@@ -259,6 +259,77 @@ def task_expansions(params, rec):
             rec.count("judged:" + op)
             if usum(a1, dt) + sign * usum(seq2, dt) != usum(r, dt):
                 rec.violation(f"{op}-not-exact", dict(dtype=params["dtype"], seq1=list(a1), seq2=list(seq2), result=list(r), functional=functional))
+        # size limits on the binary operations: a limit that is at least the number of non-zero items of the unlimited result has nothing to truncate,
+        # so the limited result must have the same exact sum as the unlimited one (which, for add / subtract, is the exact result)
+        if i % 3 == 0:
+            xs_, ys_ = list(a1), list(seq2)
+            if f.bits >= 32 and rnd.random() < 0.5:
+                # unnormalised operands: leading zeros, head cancellation, overlapping items
+                def raw(n):
+                    e = rnd.randint(-6, 6)
+                    out = []
+                    for k in range(n):
+                        m = rnd.randint(1 << (f.p - 1), (1 << f.p) - 1) if rnd.random() < 0.8 else (1 << (f.p - 1)) + rnd.choice([0, 1, 3])
+                        out.append(dt(rnd.choice([-1, 1]) * numpy.ldexp(float(m), e - f.p + 1)))
+                        e -= rnd.choice([0, 0, 1, 2, f.p // 2, f.p])
+                    if rnd.random() < 0.4:
+                        for k in range(rnd.randint(1, n)):
+                            out[k] = dt(0) if rnd.random() < 0.7 else out[k]
+                    if rnd.random() < 0.3 and n >= 2 and out[0] != 0:
+                        out[1] = -out[0]
+                    return out
+                xs_, ys_ = raw(rnd.randint(1, 4)), raw(rnd.randint(1, 3))
+            ops = ["add", "subtract"] + (["multiply", "square"] if f.bits >= 32 else [])
+            for op in ops:
+                def call(sz):
+                    kw = dict(functional=functional) if sz is None else dict(functional=functional, size=sz)
+                    with numpy.errstate(all="ignore"):
+                        return apmath.square(ctx, list(xs_), **kw) if op == "square" else getattr(apmath, op)(ctx, list(xs_), list(ys_), **kw)
+                try:
+                    full = call(None)
+                except Exception as e:
+                    rec.violation(f"{op}-exception", dict(dtype=params["dtype"], x=list(xs_), y=list(ys_), exc=f"{type(e).__name__}: {e}"[:200]))
+                    continue
+                if not all(numpy.isfinite(v) for v in full):
+                    continue
+                cap = {numpy.float16: 4, numpy.float32: 12, numpy.float64: 40}[dt]
+                if len(full) >= cap:
+                    continue
+                knz = max(1, sum(1 for v in full if v != 0))
+                nmax = {"add": len(xs_) + len(ys_), "subtract": len(xs_) + len(ys_), "multiply": len(xs_) * len(ys_), "square": len(xs_) ** 2}[op]
+                for sz in range(knz, max(knz, min(nmax, cap - 1)) + 1):
+                    try:
+                        rs = call(sz)
+                    except Exception as e:
+                        rec.violation(f"{op}-exception", dict(dtype=params["dtype"], x=list(xs_), y=list(ys_), size=sz, exc=f"{type(e).__name__}: {e}"[:200]))
+                        break
+                    if not all(numpy.isfinite(v) for v in rs):
+                        continue
+                    rec.count("judged:size-limit-without-truncation")
+                    if usum(full, dt) != usum(rs, dt) or len(rs) > sz:
+                        rec.violation(f"{op}-size-limit-changes-result-with-nothing-to-truncate", dict(dtype=params["dtype"], x=list(xs_), y=None if op == "square" else list(ys_), unlimited=list(full),
+                                                                                                     size=sz, result=list(rs), functional=functional))
+                        break
+        # renormalisation with the overflow guard on.  "Absent overflow" includes 2Sum's intermediate z = s - x (e.g. -12528 + 65504 in float16: the sum
+        # 52992 is finite, z = 65520 is not, and the guard then drops the error term by design), so the guard is only driven where no intermediate can
+        # overflow: items of one sign whose total rounds to a finite value (a head at exactly +-largest with a small tail), or lists far below largest.
+        if i % 4 == 1:
+            big = dt(numpy.finfo(dt).max)
+            sg = rnd.choice([-1, 1])
+            tail = []
+            for k in range(rnd.randint(1, 4)):
+                m = rnd.randint(1 << (f.p - 1), (1 << f.p) - 1)
+                tail.append(dt(sg * numpy.ldexp(float(m), rnd.randint(f.emin, f.emax - f.p - 4) - f.p + 1)))
+            sq = list(tail)
+            sq.insert(rnd.randrange(len(sq) + 1), dt(sg) * big)
+            if rnd.random() < 0.3:
+                sq.insert(rnd.randrange(len(sq) + 1), dt(0))
+            with numpy.errstate(all="ignore"):
+                apmath.renormalize(ctx, list(sq), functional=functional, fast=False, fix_overflow=True)  # judged by the renormalize contract (sum clause)
+                rec.count("judged:fix_overflow-calls")
+                if sum(abs(float(v)) for v in seq) < float(big) / 8:
+                    apmath.renormalize(ctx, list(seq), functional=functional, fast=False, fix_overflow=True)
+                    rec.count("judged:fix_overflow-calls")
         # multiply / square: |result - exact| < ulp(leading term); operands kept away from under/overflow so that every partial product is exact
         if f.bits >= 32 or rnd.random() < 0.2:
             n1, n2 = (rnd.randint(1, 3), rnd.randint(1, 3)) if f.bits >= 32 else (1, 1)
